@@ -44,6 +44,32 @@ def gen_call(rng: random.Random, depth: int):
     return ["fill", gen_acts(rng, depth - 1, 3)]
 
 
+def gen_call_abort(rng: random.Random, depth: int):
+    """Trees that also contain `abort` (a BaseException that hooks do not contain: it unwinds through every enclosing
+    extraction) and `["catch", acts]` (a hook body that catches it and carries on)."""
+    if depth <= 0:
+        return rng.choice(["observe", "observe", "abort", "raise", ["child", True, []]])
+    k = rng.random()
+    if k < 0.2:
+        return "observe"
+    if k < 0.3:
+        return "abort"
+    if k < 0.5:
+        inner = [gen_call_abort(rng, depth - 1) for _ in range(rng.randint(1, 3))]
+        return ["catch", inner]
+    if k < 0.8:
+        hooks = [[gen_call_abort(rng, depth - 1) for _ in range(rng.randint(1, 3))] + ["observe"] for _ in range(rng.randint(1, 2))]
+        return ["extract", rng.choice(B), rng.choice(B), hooks]
+    if k < 0.9:
+        hooks = [[gen_call_abort(rng, depth - 1), "observe"]]
+        return ["child", rng.choice(B), hooks]
+    return ["fill", [gen_call_abort(rng, depth - 1), "observe"]]
+
+
+def has_abort(tree) -> bool:
+    return "abort" in json.dumps(tree) or "catch" in json.dumps(tree)
+
+
 def exhaustive_small() -> List[Any]:
     """All trees: top-level call with one hook holding [inner-call, observe], inner over all options."""
     out = []
@@ -94,6 +120,11 @@ class Probe:
 
         class HookError(Exception):
             pass
+
+        class Cancel(BaseException):     # what KeyboardInterrupt / a Cancelled-style exception looks like to the library
+            pass
+
+        self.Cancel = Cancel
 
         self.Root, self.HookItem, self.Mgr, self.ProbeItem, self.HookError = Root, HookItem, Mgr, ProbeItem, HookError
 
@@ -169,7 +200,16 @@ class Probe:
             return
         if a == "raise":
             raise self.HookError("injected")
+        if a == "abort":
+            raise self.Cancel()
         tag = a[0]
+        if tag == "catch":
+            try:
+                for x in a[1]:
+                    self.run_call(x)
+            except self.Cancel:
+                self.log.append("caught")
+            return
         if tag == "extract":
             st = ss.extract(self.Root(a[3]), with_contexts=a[1], recurse_child_tasks=a[2])
             assert isinstance(st, ss.Stack)
@@ -199,12 +239,15 @@ class Probe:
     def run_top(self, tree) -> str:
         self.tls.log = []
         raised = False
+        aborted = False
         try:
             self._run_marked(tree)
         except Exception:
             raised = True
+        except self.Cancel:
+            aborted = True
         cell = self.observe()
-        return " ".join(self.log) + f" | raised={'T' if raised else 'F'} cell={cell}"
+        return " ".join(self.log) + f" | raised={'A' if aborted else 'T' if raised else 'F'} cell={cell}"
 
     def _run_marked(self, a):
         self.run_call(a)
@@ -261,6 +304,12 @@ class C13(PropCheck):
         n = 150 if tier == "quick" else 1500
         for _ in range(n):
             out.append({"k": "tree", "tree": gen_call(rng, rng.randint(1, 4))})
+        # BaseExceptions (KeyboardInterrupt-like) raised by hooks: not contained by extract, options still restored on the way out
+        for a, b in itertools.product(B, B):
+            out.append({"k": "tree", "tree": ["extract", a, b, [[["catch", [["extract", not a, not b, [["observe", "abort"]]]]], "observe",
+                                                                ["child", True, [["observe"]]]]]]})
+        for _ in range(n // 3):
+            out.append({"k": "tree", "tree": ["extract", rng.choice(B), rng.choice(B), [[gen_call_abort(rng, rng.randint(1, 3)), "observe"]]]})
         # threads
         nthr = 12 if tier == "quick" else 40
         for _ in range(nthr):
@@ -353,6 +402,8 @@ class C13(PropCheck):
     def model_line(self, case):
         d = {"p": "C13", "k": case["k"]}
         if case["k"] == "tree":
+            if has_abort(case["tree"]):
+                return None          # BaseException propagation is not in the Lean model: judged by the reference interpreter
             d["tree"] = case["tree"]
         else:
             d["trees"] = case["trees"]
@@ -381,6 +432,9 @@ class C13(PropCheck):
         class Raised(Exception):
             pass
 
+        class Aborted(BaseException):
+            pass
+
         def show(c):
             f = lambda b: "N" if b is None else ("T" if b else "F")
             return f"({f(c[0])},{f(c[1])})"
@@ -391,7 +445,16 @@ class C13(PropCheck):
                 return
             if a == "raise":
                 raise Raised()
+            if a == "abort":
+                raise Aborted()
             tag = a[0]
+            if tag == "catch":
+                try:
+                    for x in a[1]:
+                        call(x, c)
+                except Aborted:
+                    exp.append("caught")
+                return
             if tag in ("extract", "outermost"):
                 new = (a[1], a[2])
                 for h in a[3]:
@@ -421,12 +484,14 @@ class C13(PropCheck):
                 for x in a[1]:
                     call(x, new)
 
-        raised = False
+        raised = aborted = False
         try:
             call(tree, (None, None))
         except Raised:
             raised = True
-        want = " ".join(exp) + f" | raised={'T' if raised else 'F'} cell=(N,N)"
+        except Aborted:
+            aborted = True
+        want = " ".join(exp) + f" | raised={'A' if aborted else 'T' if raised else 'F'} cell=(N,N)"
         if want != real:
             return f"options not scoped as documented: expected [{want}] observed [{real}]"
         return None
